@@ -12,9 +12,9 @@ LEVEL = "other"
 ROCQ = "score_analysis.roc_curve.roc"
 FST = "score_analysis.roc_curve._find_support_thresholds"
 CURVE = "score_analysis.roc_curve.ROCCurve"
-F = Sym("f_in", ("param", "array", "notnone"))
-P = Sym("p_in", ("param", "array", "notnone"))
-TH = Sym("t_in", ("param", "array", "notnone"))
+F = Sym("f_in", ("param", "array", "notnone", "arraylike"))
+P = Sym("p_in", ("param", "array", "notnone", "arraylike"))
+TH = Sym("t_in", ("param", "array", "notnone", "arraylike"))
 NB = Sym("nb", ("int", "notnone"))
 AXES = {"fnr": "fnr", "fpr": "fpr", "tnr": "tnr", "tpr": "tpr", "far": "fpr", "frr": "fnr", "tar": "tpr", "trr": "tnr"}
 REV = App("slice", (Const(None), Const(None), Const(-1)))
@@ -66,6 +66,14 @@ def support_args_untouched(ctx, chk, rule="R15.6", with_extra=False):
             for o in returns(outs):
                 n += 1
                 bad = [e for e in o.events if e["kind"] in ("inplace", "augstore", "store") and e.get("root") in (TH, F, P)]
+                raw = [e for e in o.events if e["kind"] == "raw_sequence_use"]
+                if raw and not bad:
+                    e = raw[0]
+                    chk.violation(rule, FST, "args-as-sequences:%s:extra=%s" % ("+".join(sorted(kw)), "no" if extra == Const(None) else "yes"),
+                                  "ndarray-only use %s of the supplied %s before any conversion" % (e["what"], show(e["value"], 30)),
+                                  "supplied fnr / fpr / thresholds may be lists or tuples: they are only indexed, measured with len() or passed to numpy functions",
+                                  "score_analysis/roc_curve.py:%s" % getattr(e.get("node"), "lineno", "?"))
+                    continue
                 inst = "args-untouched:%s:extra=%s:path[%s]" % ("+".join(sorted(kw)), "no" if extra == Const(None) else "yes", "".join("T" if t else "F" for _c, t in o.pc))
                 if bad:
                     e = bad[0]
@@ -224,3 +232,5 @@ def run(ctx, chk, tier):
     # prerequisite: the setters and roc() do not modify the supplied arrays (the same array may be passed as fnr and fpr)
     from . import c10
     c10.purity(ctx, chk, only=("Scores.threshold_at_fnr", "Scores.threshold_at_fpr", "roc_curve.roc", "Scores.fnr", "Scores.fpr"))
+    from . import c01
+    c01.rates_from_cm(ctx, chk, metrics=("fnr", "fpr"))
